@@ -249,6 +249,20 @@ static void claimWindowProbe() {
     else exec("t " + std::to_string(R->range(1, 60)));
   }
 }
+
+// a complete, undamaged fast packet whose first frame announces any length 0..255 and which carries `frames` frames
+// (0..32, all 8 bytes, counters in order): the application must never see more than 223 bytes
+static void exactFastPacket() {
+  unsigned long pgn = R->chance(1, 2) ? 129029UL : (R->chance(1, 2) ? 126996UL : 130816UL + R->below(20));
+  unsigned src = peer(); unsigned dst = R->chance(1, 2) ? 255u : ourAddr(); int seq = (int)R->below(8);
+  int L = R->chance(2, 3) ? (int)R->range(217, 255) : (int)R->below(256);
+  int frames = R->chance(2, 3) ? 32 : (int)R->range(1, 32);
+  C.count("exact_fast_packets");
+  for (int k = 0; k < frames; k++) {
+    std::vector<unsigned char> f = rnd(8); f[0] = (unsigned char)(seq << 5 | (k & 31)); if (k == 0) f[1] = (unsigned char)L;
+    frame(mkId(6, pgn, src, dst), 8, f);
+  }
+}
 static void garbage() { frame((unsigned long)R->next() & (R->chance(1, 4) ? 0xFFFFFFFFUL : 0x1FFFFFFFUL), (int)R->below(9), rnd(8)); }
 
 static void oneCase() {
@@ -266,6 +280,7 @@ static void oneCase() {
       continue;
     }
     if (R->chance(1, 25)) { claimWindowProbe(); continue; }
+    if (R->chance(1, 30)) { exactFastPacket(); continue; }
     if (k < 18) tpSession(R->chance(3, 4));
     else if (k < 26) tpControl();
     else if (k < 38) groupFunction();
